@@ -682,7 +682,9 @@ def r16_9(run):
         run.analysed(f)
         run.ob("%s|%s|presence-not-truth-value" % (f.short, name), False,
                "optional numeric input %s (%s) is tested with `is not None` / `in`, not by its truth value" % (name, how), run.where(f, node))
-    run.ob("optional-numeric-inputs-scanned", n >= 10 and not sites,
+    if n < 5:
+        raise AnalysisError("only %d optional numeric inputs found in the create functions" % n)
+    run.ob("optional-numeric-inputs-scanned", not sites,
            "optional numeric inputs of the create functions and their helpers: %d, none tested by truth value" % n, "src/pandapipes/create.py")
     run.floor(1)
 
